@@ -72,7 +72,12 @@ class NtTriplesYielder(BaseTriplesYielder):
         return index_sub + (len(target_str) - len(target_substring))
 
     def _look_for_last_index_of_bnode_token(self, target_str, first_index):
-        return self._look_for_last_index_before_blank(target_str, first_index)
+        index = first_index
+        while index < len(target_str) and not target_str[index].isspace() and target_str[index] != "#":
+            index += 1  # A label ends at a blank or where a comment starts
+        while index - 1 > first_index and target_str[index - 1] == ".":
+            index -= 1  # A label never ends with a dot: it is the final dot of the statement (no blank before it)
+        return index - 1
 
     def _look_for_last_index_of_unlabelled_number_token(self, target_str, first_index):
         return self._look_for_last_index_before_blank(target_str, first_index)
